@@ -44,8 +44,9 @@ JUDGES = 3
 BATCH = 300
 
 TIERS = {
-    "quick": {"SMALLN": 3, "NEXPAND": 4000, "NCOND": 1500, "NINCLUDE": 600},
-    "thorough": {"SMALLN": 4, "NEXPAND": 120000, "NCOND": 40000, "NINCLUDE": 10000},
+    # REDUCE: how many of the failing cases of the seeded stratum "expand" are reduced to cores (the smallest ones)
+    "quick": {"SMALLN": 3, "NEXPAND": 4000, "NCOND": 1500, "NINCLUDE": 600, "REDUCE": 40},
+    "thorough": {"SMALLN": 4, "NEXPAND": 120000, "NCOND": 40000, "NINCLUDE": 10000, "REDUCE": 600},
 }
 ENV0 = {"SEED": "0", "SMALLN": "3", "NEXPAND": "0", "NCOND": "0", "NINCLUDE": "0", "OUT": "/dev/null", "CASES": "/dev/null", "OBS": "/dev/null"}
 
@@ -68,7 +69,7 @@ def stat(out, name):
 
 def gen(tier, seed, work):
     out = os.path.join(work, "cases.ndjson")
-    r = tlc_step("gen", dict(TIERS[tier], SEED=seed, OUT=out), timeout=3000, xmx="12g")
+    r = tlc_step("gen", dict({k: v for k, v in TIERS[tier].items() if k != "REDUCE"}, SEED=seed, OUT=out), timeout=3000, xmx="12g")
     rows = vlib.read_ndjson(out)
     if len(rows) != stat(r.out, "GEN"):
         raise vlib.InfraError("Cpp gen: count mismatch")
@@ -80,15 +81,19 @@ def laws(tier, seed):
     return stat(r.out, "LAWS"), stat(r.out, "BAD")
 
 
-def observe(pool, rows, work):
+def log(msg):
+    print("[C11 %s] %s" % (time.strftime("%H:%M:%S"), msg), file=sys.stderr, flush=True)
+
+
+def observe(pool, rows, work, batch=BATCH):
     """rows: [{id, case}] -> {id: {"cppcheck": .., "gcc": ..}}"""
     groups = {}
     for r in rows:
         groups.setdefault(c11_run.option_key(r["case"]), []).append((r["id"], r["case"]))
     jobs = []
     for _key, items in sorted(groups.items()):
-        for i in range(0, len(items), BATCH):
-            jobs.append((items[i:i + BATCH], os.path.join(work, "b%d" % len(jobs))))
+        for i in range(0, len(items), batch):
+            jobs.append((items[i:i + batch], os.path.join(work, "b%d" % len(jobs))))
     jobs.sort(key=lambda j: -len(j[0]))
     obs = {}
     for res in pool.map(c11_run.run_batch, jobs, chunksize=1):
@@ -129,10 +134,11 @@ def judge(rows, obs, work, tag, parts=JUDGES):
     return res, stats
 
 
-def minimise(pool, failing, work, max_rounds=30):
-    """failing: [case]. Greedy reduction. In every round all one-step reductions (c11_run.reduction_ops) of every current
-    case are run and judged; the case moves to the combination of all reductions that keep the verdict "bad" if the
-    combination is "bad" too, else to the first such reduction; a case without one is a core.
+def minimise(pool, failing, work, max_rounds=25):
+    """failing: [case]. Greedy reduction, two waves per round. Wave a: every one-step reduction (c11_run.reduction_ops: an
+    option / file / line / token removed, a token replaced by the plainest of its kind) of every current case is run and judged.
+    Wave b: the first n, n/2, n/4, ... of the reductions that kept the verdict "bad" are applied together; the case moves to the
+    largest combination that is still "bad" (at least the first single reduction). A case without such a reduction is a core.
     Returns ({core key: [core case, number of failing cases reduced to it]}, rounds, extra runs)."""
     verdict = {}          # case key -> True ("bad") / False
 
@@ -166,21 +172,26 @@ def minimise(pool, failing, work, max_rounds=30):
     rounds = runs = 0
     while current and rounds < max_rounds:
         rounds += 1
-        singles = {}
-        for k, (c, _n) in current.items():
-            singles[k] = [(op, c11_run.apply_ops(c, [op])) for op in c11_run.reduction_ops(c)]
+        singles = {k: [(op, c11_run.apply_ops(c, [op])) for op in c11_run.reduction_ops(c)] for k, (c, _n) in current.items()}
         runs += decide([r for k in current for _op, r in singles[k]], "r%da" % rounds)
-        good = {k: [(op, r) for op, r in singles[k] if verdict[c11_run.case_key(r)]] for k in current}
-        combos = {k: c11_run.apply_ops(current[k][0], [op for op, _r in good[k]]) for k in current if len(good[k]) > 1}
-        runs += decide(list(combos.values()), "r%db" % rounds)
+        good = {k: [op for op, r in singles[k] if verdict[c11_run.case_key(r)]] for k in current}
+        combos = {}
+        for k, (c, _n) in current.items():
+            n = len(good[k])
+            sizes = []
+            while n >= 2:
+                sizes.append(n)
+                n //= 2
+            combos[k] = [c11_run.apply_ops(c, good[k][:m]) for m in sizes]
+        runs += decide([r for k in current for r in combos[k]], "r%db" % rounds)
         nxt = {}
         for k, (c, n) in current.items():
             if not good[k]:
                 add(cores, c, n)
-            elif k in combos and verdict[c11_run.case_key(combos[k])]:
-                add(nxt, combos[k], n)
-            else:
-                add(nxt, good[k][0][1], n)
+                continue
+            target = next((r for r in combos[k] if verdict[c11_run.case_key(r)]), None)
+            add(nxt, target if target is not None else c11_run.apply_ops(c, good[k][:1]), n)
+        log("reduction round %d: %d cases -> %d, %d cores so far, %d runs" % (rounds, len(current), len(nxt), len(cores), runs))
         current = nxt
     for k, (c, n) in current.items():     # round limit reached
         add(cores, c, n)
@@ -209,24 +220,26 @@ def main(tier, seed, replay=None):
         lawf = bg.submit(laws, tier, seed)
         rows = gen(tier, seed, work)
         t1 = time.time()
+        log("generated %d cases" % len(rows))
         run_rows = [r for r in rows if r["defined"]]
         obs, nb = observe(pool, run_rows, os.path.join(work, "runs"))
         t2 = time.time()
         res, stats = judge(run_rows, obs, work, "main")
         t3 = time.time()
+        log("judged: %s" % stats)
         by_id = {r["id"]: r for r in run_rows}
         bad_ids = sorted(i for i, b in res.items() if b["v"] == "bad")
         model_ids = sorted(i for i, b in res.items() if b["v"] == "model")
-        cores, rounds, extra = minimise(pool, [by_id[i]["case"] for i in bad_ids], work)
+        # every failing case of the exhaustive and the cond / include strata is reduced; of the seeded expand stratum the REDUCE smallest
+        exp_bad = sorted([i for i in bad_ids if by_id[i]["stratum"] == "expand"], key=lambda i: (c11_run.size(by_id[i]["case"]), i))
+        reduce_ids = [i for i in bad_ids if by_id[i]["stratum"] != "expand"] + exp_bad[:TIERS[tier]["REDUCE"]]
+        cores, rounds, extra = minimise(pool, [by_id[i]["case"] for i in reduce_ids], work)
         # every core alone: one case per process
         core_list = sorted(cores.items(), key=lambda kv: (c11_run.size(kv[1][0]), kv[0]))
         crow = [{"id": i + 1, "case": c} for i, (_k, (c, _n)) in enumerate(core_list)]
         violations = []
         if crow:
-            cobs = {}
-            for r in crow:
-                o, _ = observe(pool, [r], os.path.join(work, "confirm%d" % r["id"]))
-                cobs.update(o)
+            cobs, _ = observe(pool, crow, os.path.join(work, "confirm"), batch=1)
             cres, _st = judge(crow, cobs, work, "confirm")
             for r, (_k, (c, n)) in zip(crow, core_list):
                 if r["id"] in cres and cres[r["id"]]["v"] == "bad":
@@ -263,7 +276,7 @@ def main(tier, seed, replay=None):
                 "the concatenated text lines of the main file, i.e. some macro was replaced, a group skipped or a file included" % TIERS[tier]["SMALLN"],
         "exhaustive": False,
         "generated": len(rows), "defined_and_run": len(run_rows), "judged_equal": stats["OK"], "model_disagreement": stats["MODEL"],
-        "differ_first_pass": stats["BAD"], "cores": len(cores), "cores_confirmed_alone": len(violations), "known_findings_hit": known,
+        "differ_first_pass": stats["BAD"], "differ_reduced": len(reduce_ids), "differ_not_reduced": len(bad_ids) - len(reduce_ids), "cores": len(cores), "cores_confirmed_alone": len(violations), "known_findings_hit": known,
         "reduction_rounds": rounds, "reduction_extra_cases": extra, "by_stratum": by_stratum, "law_cases": nlaw, "processes": 2 * nb,
         "model_disagreement_samples": [{"case": c11_run.show(by_id[i]["case"], i).splitlines(), "spec": " ".join(res[i]["expected"]),
                                         "gcc": " ".join(obs[i]["gcc"]["toks"]), "gcc_msg": obs[i]["gcc"]["msg"]} for i in model_ids[:5]],
